@@ -85,7 +85,8 @@ def strip_attributes(t):
     out = []
     i = 0
     while i < len(t):
-        if t[i] == "[" and (not out or out[-1] in "{};)") and i + 1 < len(t) and t[i + 1] in ATTRS:
+        # a statement attribute stands where a statement starts: after `{`, `}`, `;`, `)`, or the `:` of a case label
+        if t[i] == "[" and (not out or out[-1] in "{};):") and i + 1 < len(t) and t[i + 1] in ATTRS:
             depth = 0
             while i < len(t):
                 if t[i] == "[":
